@@ -288,10 +288,9 @@ class CGMYModel(LevyModel):
     def __init__(self, parameters: CGMYParameters):
         self.parameters = parameters
         cumulant = _CGMYCumulant(drift=0, parameters=parameters)
-        if parameters.y < 0.0:
-            representation = LevyRepresentation.ZERO
-        else:
-            representation = LevyRepresentation.CENTER
+        # zero drift with centred jumps for every y: this is the representation of the Lévy exponent and of the
+        # (zero) first cumulant below
+        representation = LevyRepresentation.CENTER
 
         triplet = LevyTriplet(
             a=0,
@@ -314,14 +313,11 @@ class CGMYModel(LevyModel):
 
         res = 0
         if y == 0:
-            res += -c * (np.log(1 + x / g) + np.log(1 - x / m))
-        elif y == 1.0:
-            res += c * (
-                (g + x) * np.log(g + x)
-                - g * np.log(g)
-                + (m - x) * np.log(m - x)
-                - m * np.log(m)
+            res += -c * (np.log(1 + x / g) + np.log(1 - x / m)) + c * x * (
+                1 / g - 1 / m
             )
+        elif y == 1.0:
+            res += c * ((g + x) * np.log(1 + x / g) + (m - x) * np.log(1 - x / m))
         else:
             # adjustment for y >= 0 because of the center representation
             # see for example equation (2.4) in "Monte Carlo option pricing for tempered stable (CGMY) processes"
